@@ -8,6 +8,9 @@ def main(argv):
         print("usage: vcheck <check> quick|thorough | replay <file> | selftest determinism|sensitivity")
         return 2
     # never run with cwd inside /repo or /verif: backends write artefacts into cwd
+    # BranchingValues.__del__ raises when a run was aborted inside a block: that is reported by CPython through the
+    # unraisable hook (noise on stderr, nothing a check looks at)
+    sys.unraisablehook = lambda *a: None
     scratch = tempfile.mkdtemp(prefix="vcheck-")
     os.chdir(scratch)
     try:
